@@ -189,7 +189,8 @@ def handler_value(out, rnd):
     if out == "metaLong":
         return GeminiResponse(status=20, meta=rnd.choice(["m" * 1025, "m" * 3000, "é" * 600]), body=BODY)
     if out == "unenc":
-        return GeminiResponse(status=20, meta="text/gemini", body="bad \udcff surrogate")
+        # a body that cannot be put on the wire: text that cannot be encoded, or not text / bytes at all
+        return GeminiResponse(status=20, meta="text/gemini", body=rnd.choice(["bad \udcff surrogate", "bad \udcff surrogate", 12345, 3.5, object(), iter([b"x"]), {"a": 1}]))
     if out == "status99":
         return GeminiResponse(status=rnd.choice([99, 5, 0, 70, 100, -1, 9]), meta="odd")
     if out in ("raise", "raiseCRLF"):
